@@ -4,6 +4,7 @@ import (
 	"context"
 	"errors"
 	"fmt"
+	"math"
 	"runtime"
 	"sync/atomic"
 	"testing"
@@ -37,6 +38,9 @@ type Plan struct {
 	CtorCancelled bool   `json:"ctor_cancelled,omitempty"`
 	SrcGap        int    `json:"src_gap,omitempty"`
 	CloseDelay    int    `json:"close_delay,omitempty"` // ms the source's Close takes
+	// SrcBlockAt (MapStream, only together with a failing f): once that many (>= 1) items are out the source
+	// has nothing more for now and blocks until its context ends - a live but idle source. 0 = never.
+	SrcBlockAt int `json:"src_block_at,omitempty"`
 }
 
 func genPlan(streamKind bool) func(t *rapid.T) Plan {
@@ -48,6 +52,8 @@ func genPlan(streamKind bool) func(t *rapid.T) Plan {
 		if eff <= 0 {
 			eff = runtime.GOMAXPROCS(-1)
 		}
+		// (no huge buffer sizes: "a larger buffer uses more memory" is documented, and MapStream does fill a
+		// channel of that size when it is constructed)
 		p.Buf = rapid.SampledFrom([]int{-1, 0, 1, eff - 1, eff, 3 * eff}).Draw(t, "buf")
 		p.Lat = rapid.SampledFrom([]string{"zero", "desc", "desc", "head", "head", "random"}).Draw(t, "lat")
 		p.Pace = rapid.SliceOfN(rapid.SampledFrom([]int{0, 0, 0, 5, 50, 2000}), 1, 4).Draw(t, "pace")
@@ -59,6 +65,15 @@ func genPlan(streamKind bool) func(t *rapid.T) Plan {
 			}
 			if rapid.IntRange(0, 2).Draw(t, "ferr") == 0 && p.Len > 0 {
 				p.FErrAt = rapid.SliceOfNDistinct(rapid.IntRange(0, p.Len-1), 1, 3, func(x int) int { return x }).Draw(t, "ferrat")
+			}
+			if len(p.FErrAt) > 0 && p.SrcErrAt < 0 && rapid.IntRange(0, 2).Draw(t, "idle") == 0 {
+				first := p.FErrAt[0]
+				for _, i := range p.FErrAt {
+					if i < first {
+						first = i
+					}
+				}
+				p.SrcBlockAt = rapid.IntRange(first+1, p.Len).Draw(t, "blockat")
 			}
 			if rapid.IntRange(0, 2).Draw(t, "timeouts") == 0 {
 				p.Timeouts = rapid.SliceOfN(rapid.SampledFrom([]int{0, 0, 1, 7, 100}), 1, 4).Draw(t, "to")
@@ -142,7 +157,9 @@ func run(p Plan) (vk.Outcome, error) {
 		eff = runtime.GOMAXPROCS(-1)
 	}
 	bound := eff + 1
-	if p.Buf > 0 {
+	if p.Buf > 1<<40 {
+		bound = math.MaxInt
+	} else if p.Buf > 0 {
 		bound += p.Buf
 	}
 	var order []int // completion order of f calls
@@ -209,6 +226,9 @@ func run(p Plan) (vk.Outcome, error) {
 			srcE := sk.NewSentinel("src-error")
 			if p.SrcErrAt >= 0 {
 				src.FinalAt, src.Final = p.SrcErrAt, srcE
+			}
+			if p.SrcBlockAt > 0 && len(p.FErrAt) > 0 && p.SrcErrAt < 0 {
+				src.BlockAt = p.SrcBlockAt
 			}
 			ctorCtx, ctorCancel := context.WithCancel(context.Background())
 			defer ctorCancel()
